@@ -56,6 +56,25 @@ class Export:
         outs = "; ".join(f"{self.v(o)}%N" for o in i.get_outputs())
         return f'mkI "{i.opcode}" [{args}] [{outs}]'
 
+    def struct(self):
+        """the same function as plain python data (for the search): blocks of (opcode, operands, outputs)"""
+        from vyper.venom.basicblock import IRLabel, IRLiteral, IRVariable
+        out = []
+        for bb in self.blocks:
+            blk = []
+            for i in bb.instructions:
+                ops = []
+                for o in i.operands:
+                    if isinstance(o, IRLiteral):
+                        ops.append(("lit", o.value))
+                    elif isinstance(o, IRVariable):
+                        ops.append(("var", self.v(o)))
+                    else:
+                        ops.append(("lab", self.lab.get(o.value, -1)))
+                blk.append((i.opcode, ops, [self.v(o) for o in i.get_outputs()]))
+            out.append(blk)
+        return out
+
     def func(self):
         bl = []
         for bb in self.blocks:
@@ -141,6 +160,7 @@ class Observer:
         self.samples = {}
         self.elim = []
         self.elim_fail = []
+        self.affine = []
         self.cur_pass = None
         self.cur_sample = None
         self.max_insts = max_insts
@@ -188,6 +208,32 @@ class Observer:
                     obs.samples.setdefault("__errors__", []).append("after_pass: " + repr(e))
                 return r
             cls_.run_pass = run_pass
+        from vyper.venom.passes.affine_folding import AffineFoldingPass
+        orig_aff = AffineFoldingPass.run_pass
+        self.pass_orig.append((AffineFoldingPass, orig_aff))
+
+        def run_affine(self_, *a, **k):
+            ex = before = None
+            try:
+                ex = Export(self_.function, None)
+                if ex.ninsts <= obs.max_insts:
+                    before = ex.func()
+                    before_s = ex.struct()
+            except Exception as e:
+                obs.samples.setdefault("__errors__", []).append("affine before: " + repr(e))
+            r = orig_aff(self_, *a, **k)
+            try:
+                if before is not None:
+                    after = ex.func()
+                    if after != before:
+                        key = hashlib.sha256((before + after).encode()).hexdigest()[:16]
+                        if not any(e_["key"] == key for e_ in obs.affine):
+                            obs.affine.append(dict(key=key, name=ex.name, func=before, after=after, ninsts=ex.ninsts,
+                                                   text=str(self_.function), before_s=before_s, after_s=ex.struct()))
+            except Exception as e:
+                obs.samples.setdefault("__errors__", []).append("affine after: " + repr(e))
+            return r
+        AffineFoldingPass.run_pass = run_affine
         return self
 
     def __exit__(self, *a):
@@ -368,3 +414,99 @@ def evaluate_elim(samples, name="c14elim", shard=6, timeout=600):
         exprs.append(f"let f : func := {s['func']} in let E : list aenv := {E} in let g : func := {s['after']} in "
                      "[if elim_check f E g then 1 else 0; if check f E then 1 else 0]")
     return coqrun.eval_zlists(imports, exprs, name, shard=shard, timeout=timeout)
+
+
+def evaluate_affine(samples, name="c14aff", shard=6, timeout=600):
+    imports = ("From Coq Require Import NArith.\nFrom Verif Require Import Base.PyInt C14.RangeBase C14.RangeFix C14.RangeElim C14.RangeAffine.\n"
+               "Open Scope string_scope.\nOpen Scope Z_scope.\n"
+               "Definition ndiff (f g : func) : Z := Z.of_nat (List.length (filter (fun p : inst * inst => negb (inst_eqb (fst p) (snd p))) "
+               "(combine (List.concat f) (List.concat g)))).\n")
+    exprs = []
+    for s in samples:
+        exprs.append(f"let f : func := {s['func']} in let g : func := {s['after']} in [if affine_check f g then 1 else 0; ndiff f g]")
+    return coqrun.eval_zlists(imports, exprs, name, shard=shard, timeout=timeout)
+
+
+def _run_struct(fs, seed, max_steps=400):
+    """Execute a structured function; unmodelled instructions return words that depend only on (seed, block, index,
+    visit), so that two runs of structurally aligned functions see the same 'environment'.  Yields (b, idx, outs, values)."""
+    import hashlib as _h
+    from vyper.venom.basicblock import IRLiteral
+    from vyper.venom.passes.sccp.eval import ARITHMETIC_OPS, eval_arith
+    env, b, pred, steps, visits, log = {}, 0, None, 0, {}, []
+
+    def havoc(bi, idx):
+        n = visits.get((bi, idx), 0)
+        visits[(bi, idx)] = n + 1
+        d = int.from_bytes(_h.sha256(f"{seed}:{bi}:{idx}:{n}".encode()).digest(), "big")
+        return BOUNDARY[d % len(BOUNDARY)] if d % 4 else d % W256
+
+    while b is not None and 0 <= b < len(fs) and steps < max_steps:
+        blk = fs[b]
+        upd = {}
+        for idx, (op, ops, outs) in enumerate(blk):
+            if op != "phi":
+                break
+            src = None
+            for j in range(0, len(ops) - 1, 2):
+                if ops[j][0] == "lab" and ops[j][1] == pred and ops[j + 1][0] == "var":
+                    src = ops[j + 1][1]
+            upd[outs[0]] = env.get(src, havoc(b, idx)) if src is not None else havoc(b, idx)
+        env.update(upd)
+        nxt = None
+        for idx, (op, ops, outs) in enumerate(blk):
+            if op == "phi":
+                continue
+            steps += 1
+
+            def val(o):
+                if o[0] == "lit":
+                    return o[1] % W256
+                if o[0] == "var":
+                    if o[1] not in env:
+                        env[o[1]] = havoc(b, -1 - o[1])
+                    return env[o[1]]
+                return None
+            if op == "jmp":
+                nxt = ops[0][1]
+            elif op == "jnz":
+                nxt = ops[1][1] if val(ops[0]) != 0 else ops[2][1]
+            elif op == "djmp":
+                labs = [o[1] for o in ops if o[0] == "lab" and o[1] >= 0]
+                nxt = labs[havoc(b, idx) % len(labs)] if labs else None
+            elif op == "assert":
+                if len(ops) == 1 and val(ops[0]) == 0:
+                    log.append((b, idx, "revert", ()))
+                    return log
+            elif outs:
+                vals = [val(o) for o in ops]
+                if op == "assign" and len(vals) == 1 and vals[0] is not None:
+                    res = vals[0]
+                elif op in ARITHMETIC_OPS and all(v is not None for v in vals) and len(outs) == 1:
+                    try:
+                        res = eval_arith(op, [IRLiteral(v) for v in vals]) % W256
+                    except Exception:
+                        res = havoc(b, idx)
+                else:
+                    res = havoc(b, idx)
+                for o in outs:
+                    env[o] = res
+                log.append((b, idx, tuple(outs), res))
+        pred, b = b, nxt
+    return log
+
+
+def search_value_change(sample, rnd, tries=40):
+    """before/after functions of a pass that only replaces instructions in place: find an execution on which an
+    instruction at the same position produces a different word."""
+    fb, fa = sample["before_s"], sample["after_s"]
+    for _ in range(tries):
+        seed = rnd.randrange(2**32)
+        lb, la = _run_struct(fb, seed), _run_struct(fa, seed)
+        for x, y in zip(lb, la):
+            if x != y:
+                b, idx = x[0], x[1]
+                return {"function_after": sample["text"][:6000], "block": b, "index": idx,
+                        "instruction_before": repr(fb[b][idx]), "instruction_after": repr(fa[b][idx]),
+                        "value_before": str(x[3]), "value_after": str(y[3]), "seed": seed}
+    return None
